@@ -1,10 +1,12 @@
 import Driver.Dates
 import Driver.Holidays
+import Driver.Duals
 open Drv
 
 structure St where
   dates : DateState := {}
   hols : HolState := {}
+  duals : DualState := {}
 
 def stepLine (st : St) (line : String) : St × String :=
   let toks := (line.trimAscii.toString.splitOn " ").filter (· ≠ "")
@@ -14,6 +16,9 @@ def stepLine (st : St) (line : String) : St × String :=
   | none =>
   match holStep st.hols toks with
   | some (h, out) => ({ st with hols := h }, out)
+  | none =>
+  match dualStep st.duals toks with
+  | some (d, out) => ({ st with duals := d }, out)
   | none => (st, "bad-op")
 
 partial def loop (h : IO.FS.Stream) (out : IO.FS.Stream) (st : St) : IO Unit := do
